@@ -91,9 +91,16 @@ def run_scenario(prop, scn, wd):
     import fcntl, hashlib
     h = hashlib.sha256(json.dumps(scn, sort_keys=True).encode()).hexdigest()[:16]
     base = os.path.join(os.environ.get("TMPDIR", "/tmp"), "verif-fixed")
-    os.makedirs(base, exist_ok=True)
     fwd = os.path.join(base, prop.ID + "-" + h)
-    with open(fwd + ".lock", "w") as lock:
+    lock = None
+    for _attempt in range(50):     # another batch may remove the (empty) base directory at any moment
+        try:
+            os.makedirs(base, exist_ok=True)
+            lock = open(fwd + ".lock", "w")
+            break
+        except OSError:
+            time.sleep(0.01)
+    with lock:
         fcntl.flock(lock, fcntl.LOCK_EX)
         core.rmtree(fwd)
         os.makedirs(fwd)
